@@ -53,7 +53,7 @@ package boltz
 
 // before the delete: the value's entry is removed
 //@ func (*uniqueIndex).ProcessBeforeDelete
-//@   props C03
+//@   props C03 C06
 //@   nosafety
 //@   assume[index-bucket-initialised] idxBucketPresent(index, ctxTx[ctx.Ctx])
 //@   modifies *
@@ -120,7 +120,7 @@ package boltz
 // before the delete: under every current value of the row, the row's entry is gone (and a value left without entries
 // loses its key)
 //@ func (*setIndex).ProcessBeforeDelete
-//@   props C03
+//@   props C03 C06
 //@   nosafety
 //@   assume[index-bucket-initialised] sxBase(index, ctx) != 0
 //@   assume[buckets-form-a-tree] sxTree(sxBase(index, ctx))
@@ -209,7 +209,7 @@ package boltz
 //@   ensures[parent-constraints-first] !holderFailed[ctx.ErrHolder] && ctx.Parent != nil ==> cxN >= old(cxN) + len(ctx.Indexer.constraints) + len(ctx.Parent.Indexer.constraints) && cxSegment(cxN - len(ctx.Indexer.constraints), ctx.Parent.Indexer.constraints, len(ctx.Parent.Indexer.constraints), 2, ref(ctx.Parent))
 //@   invariant 1: cxPrefixKept() && (old(holderFailed[ctx.ErrHolder]) ==> holderFailed[ctx.ErrHolder]) && (!holderFailed[ctx.ErrHolder] ==> cxN >= old(cxN) + rangeindex + 1 && cxSegment(cxN, ctx.Indexer.constraints, rangeindex + 1, 2, ref(ctx)) && (ctx.Parent != nil ==> cxN >= old(cxN) + rangeindex + 1 + len(ctx.Parent.Indexer.constraints) && cxSegment(cxN - (rangeindex + 1), ctx.Parent.Indexer.constraints, len(ctx.Parent.Indexer.constraints), 2, ref(ctx.Parent))))
 //@ func (*IndexingContext).ProcessBeforeDelete
-//@   props C03 C04 C15
+//@   props C03 C04 C15 C06
 //@   nosafety
 //@   modifies *, cxN, cxWho, cxPhase, cxCtx
 //@   ensures[log-only-grows] cxPrefixKept()
